@@ -23,6 +23,7 @@ import (
 	"io"
 	"os"
 	"reflect"
+	"strings"
 	"sync"
 	"time"
 
@@ -124,8 +125,22 @@ var newvalueDec = typedDecoder{"newvalue", func(d *refmodel.Datum) ([]byte, int,
 	return refmodel.EncodeValue(d), 4 + len(d.T.String()), f, true
 }}
 
+// consumedOnFull runs the decoder over the whole encoding followed by a
+// sentinel and returns how many bytes it took (len(enc) if it fails: a
+// decoder that cannot decode the full encoding is C03's business).
+func consumedOnFull(enc []byte, f decodeFn) int {
+	rd := enum.NewFragReader(enc, nil, enum.NoEOF, 0)
+	if out, _ := outcome(f, rd); out != "accepted" || rd.Pos() > len(enc) {
+		return len(enc)
+	}
+	return rd.Pos()
+}
+
 // cutAll runs the decoder over every strict prefix of the encoding of d and
-// files the accepted ones.
+// files the accepted ones. Prefixes that are accepted only because the
+// decoder stops before the end of the FULL encoding (it never looks at the
+// missing bytes) are filed once per datum under "stops-early", attributed to
+// the atom kinds that cause the early stop.
 func cutAll(dec typedDecoder, d *refmodel.Datum, fam *int64, mds []enum.EOFMode, g *enum.Guard, classes map[string]bool) {
 	enc, off, f, ok := dec.prep(d)
 	if !ok {
@@ -134,6 +149,8 @@ func cutAll(dec typedDecoder, d *refmodel.Datum, fam *int64, mds []enum.EOFMode,
 	}
 	_, spans := refmodel.EncodeSpans(d)
 	rd := enum.NewFragReader(nil, nil, 0, 0)
+	full := consumedOnFull(enc, f)
+	filedEarly := false
 	for k := 0; k < len(enc); k++ {
 		for _, mode := range mds {
 			k, mode := k, mode
@@ -159,10 +176,44 @@ func cutAll(dec typedDecoder, d *refmodel.Datum, fam *int64, mds []enum.EOFMode,
 				classes[part+"|refused"] = true
 				continue
 			}
+			if out == "accepted" && k >= full {
+				classes[part+"|accepted-stops-early"] = true
+				if !filedEarly {
+					filedEarly = true
+					fileEarly(dec, d, mode)
+				}
+				break
+			}
 			classes[part+"|"+out] = true
 			fileCut(dec, d, k, off, mode, out)
 			break
 		}
+	}
+}
+
+// fileEarly records a decoder that stops before the end of a full valid
+// encoding, so that every prefix from that point on is accepted.
+func fileEarly(dec typedDecoder, d *refmodel.Datum, mode enum.EOFMode) {
+	early := func(x *refmodel.Datum) bool {
+		enc, _, f, ok := dec.prep(x)
+		return ok && consumedOnFull(enc, f) < len(enc)
+	}
+	detail, min := enum.Blame(d, early, nil)
+	menc, _, mf, _ := dec.prep(min)
+	c := consumedOnFull(menc, mf)
+	fp := fmt.Sprintf("cut/%s/accepted/stops-early/%s", dec.name, detail)
+	rank := fmt.Sprintf("%06d|%06d|%s", len(menc), c, min.T)
+	if run.Fail(fp, rank) {
+		run.Keep(fp, rank, fmt.Sprintf("%s takes only %d of the %d bytes %s of a full valid encoding (signature %q, value %s) and reports success, so every prefix of at least %d bytes is accepted", dec.name, c, len(menc), hexs(menc), min.T, min, c),
+			map[string]interface{}{"decoder": dec.name, "signature": min.T.String(), "value": min.String(), "encoding_hex": hexs(menc), "cut": c,
+				"prefix_hex": hexs(menc[:c]), "eof_mode": mode.String(), "expected": "a non-nil error", "found_in": fmt.Sprintf("%s %s", d.T, d)},
+			func() bool {
+				if c >= len(menc) {
+					return false
+				}
+				res, _ := outcome(mf, enum.NewFragReader(menc[:c], nil, mode, 0))
+				return res == "accepted"
+			})
 	}
 }
 
@@ -186,6 +237,11 @@ func fileCut(dec typedDecoder, d *refmodel.Datum, k, off int, mode enum.EOFMode,
 	}
 	menc, moff, mf, _ := dec.prep(min)
 	cut := moff + mk
+	if out == "accepted" && cut >= consumedOnFull(menc, mf) {
+		// the reduced case is accepted because its decoder stops early
+		fileEarly(dec, min, mode)
+		return
+	}
 	// does the end-of-stream mode matter?
 	other := enum.EOFSeparate
 	if mode == enum.EOFSeparate {
@@ -343,7 +399,7 @@ func familyValues(depth int, thorough bool) {
 
 // ------------------------------------------------------------- typed data
 
-func familyTyped(depth int) {
+func familyTyped(depth int, thorough bool) {
 	sigs := enum.Sigs(enum.SigOpts{Depth: depth, Width: 2, Outer: "cCwWiIlLfdbsmo", Inner: "isbmC",
 		OuterKeys: "cCwWiIlLbs", InnerKeys: "isC", Structs: true})
 	famR, famD := run.Family("sigreader"), run.Family("reflect-decode")
@@ -359,7 +415,11 @@ func familyTyped(depth int) {
 		t := sigs[i]
 		cr, cd := map[string]bool{}, map[string]bool{}
 		n := 0
-		for _, d := range enum.Vals(t) {
+		vals := []*refmodel.Datum{enum.Dist(t), enum.Zero(t)}
+		if thorough || t.Depth() <= 1 {
+			vals = enum.Vals(t)
+		}
+		for _, d := range vals {
 			n++
 			cutAll(sigreaderDec, d, famR, modes, g, cr)
 			cutAll(reflectDec, d, famD, modes, g, cd)
@@ -447,7 +507,11 @@ func familyFixed() {
 				out, det := outcome(it.dec.f, rd)
 				run.Eval(fam, 1)
 				sp, _ := refmodel.SpanAt(spans, k)
-				where := enum.FieldPath(it.d, sp.Path) + ":" + sp.String()
+				where := enum.FieldPath(it.d, sp.Path)
+				if i := strings.Index(where, "<dyn>"); i >= 0 {
+					where = where[:i+5]
+				}
+				where += ":" + sp.String()
 				res := "refused"
 				if out != "" {
 					res = out
@@ -481,7 +545,7 @@ func main() {
 	finish := func() int {
 		rule := "corpus x every cut position 0 <= k < len(e) x end-of-stream modes {data+EOF, EOF separate} (newvalue in quick: data+EOF only; messages also 1 byte per read): " +
 			"messages (8 types x payload 0,1,5,40); dynamic values (13 constructors x Val, value lists of depth <= 2, opaque composites of Sig(D,2): all of Val for depth-1 signatures, " +
-			"distinguished+zero value deeper (thorough: all of Val)); typed data of Sig(D,2) x Val through the signature reader and through the reflection decoder; " +
+			"distinguished+zero value deeper (thorough: all of Val)); typed data of Sig(D,2) through the signature reader and through the reflection decoder (all of Val for depth-1 signatures, distinguished+zero value deeper; thorough: all of Val); " +
 			"MetaObject / ObjectReference / ServiceInfo / CapabilityMap boundary values and real meta-objects through their generated readers. " +
 			"evaluations counts decoder runs. A case class is (decoder, signature shape or decoder field path, element kind and part containing the first missing byte, outcome); " +
 			"distinct_nontrivial counts the distinct classes executed"
@@ -498,7 +562,7 @@ func main() {
 	run.SetAbortFinish(15*time.Second, finish)
 	familyMessages()
 	familyFixed()
-	familyTyped(depth)
+	familyTyped(depth, run.Thorough())
 	familyValues(depth, run.Thorough())
 	os.Exit(finish())
 }
